@@ -668,7 +668,7 @@ pub fn main(env: &Env) -> i32 {
     ));
     env.finish(
         "exploration",
-        "layered generated inputs (decoders, frames, noise, multiplexer, RPC) with per-case panic capture; consensus-handler and live-node layers are reported by their own parts",
+        "layered generated inputs (decoders, frames, noise, multiplexer, RPC) with per-case panic capture; the consensus-handler layer is reported by the simulator engine's `handlers` part (merged into the same evidence file); a whole-node layer over TCP was not built",
         &["a caught panic equals a process abort of a real node (the repository builds with panic=abort)", "overflow-check panics exist only in builds with overflow checks (the repository's dev/test profile)"],
         parts,
     )
